@@ -82,6 +82,15 @@ CHECKS = {
         design_ref='DESIGN.md section 5 C02, section 3',
         note=('Trusted: vf/refsem.py, the unassigned-value convention per logic. FDE-family evaluator differences on N/B '
               'pairs are the C07 known finding and are excluded by construction (counted).')),
+    'C09': dict(
+        category='exploration',
+        technique='Hypothesis arguments x full option grid x tie-break schedules (guarded hash-order hook) x premise permutations; metamorphic oracle: one outcome class per argument, nothing raises',
+        text=('Each generated argument is proved under every combination of group / rank optimisation and build-vs-step, '
+              'under several enumerated tie-break schedules, and with its premises permuted and duplicated; any exception '
+              'or two different non-limited verdicts is a violation. The schedule dimension is made enumerable and '
+              'replayable by the guarded hash-order hook.'),
+        design_ref='DESIGN.md section 5 C09, section 3',
+        note='No semantic oracle is involved: only agreement between runs. Limited outcomes are excluded and counted.'),
 }
 
 NOT_YET = 'check not built yet in this session (planned, see DESIGN.md section 5); no claim is made'
